@@ -177,44 +177,11 @@ theorem upAppendHeaders_ok (c : Cfg) (s : S) (eos : Bool) (hpd : processDone s =
 
 /-- the timers after `doRetry` -/
 def retryPt (c : Cfg) (s : S) : Bool := s.perTry || c.tryTimeout
-def retryGt (c : Cfg) (s : S) : Bool := if !(s.gtObj && s.reqSent) then true else s.global
+def retryGt (c : Cfg) (s : S) : Bool := if !(hasTimerObj s) then true else s.global
 /-- the number of global timers armed so far after `doRetry`: one more exactly when no timer object existed yet -/
-def retryGg (s : S) : Nat := if !(s.gtObj && s.reqSent) then s.gtGen + 1 else s.gtGen
+def retryGg (s : S) : Nat := if !(hasTimerObj s) then s.gtGen + 1 else s.gtGen
 /-- `s.responseTimer != nil` after `doRetry` -/
-def retryGo (s : S) : Bool := if !(s.gtObj && s.reqSent) then true else s.gtObj
-
-/-- [proxy10] the regenerated `doRetry` (`Gen.ProxyBackoff.doRetry`) in closed form on the machine: after the sleep it returns
-at once when a local reply is pending; it raises the global timeout on the fresh upstream request when the expiry was
-recorded; otherwise: no host → local reply, else the new attempt -/
-theorem doRetry_eq (c : Cfg) (s : S) :
-    doRetry c s =
-      if s.direct then s
-      else if s.globalExpired && s.up.isSome then upOnResetStream s .UpstreamGlobalTimeout
-      else if s.hostsGone then
-        cleanUp c (sendHijack (if s.up.isSome then { s with setupRetry := false } else s) NoHealthUpstreamCode false)
-      else
-        let s := { s with up := some none, setupRetry := false }
-        let s := upAppendHeaders c s (!c.hasData && !c.hasTrailers)
-        let s := if c.hasData then upAppendData s (!c.hasTrailers) else s
-        let s := if c.hasTrailers then upAppendTrailers s else s
-        let s := if !(s.gtObj && s.reqSent) then onUpstreamRequestSent c s else setupPerReqTimeout c s
-        { s with reqSent := true, recvDone := true } := by
-  unfold doRetry Gen.ProxyBackoff.doRetry
-  simp only [drOps, id]
-  by_cases h1 : s.direct = true
-  · simp [h1]
-  · simp only [h1, Bool.false_eq_true, if_false]
-    by_cases h2 : (s.globalExpired && s.up.isSome) = true
-    · simp [h2]
-    · simp only [h2, Bool.false_eq_true, if_false]
-      by_cases h3 : s.hostsGone = true
-      · simp only [h3, if_true]
-        by_cases h4 : s.up.isSome = true <;> simp [h4, NoHealthUpstreamCode]
-      · simp only [h3, Bool.false_eq_true, if_false]
-        cases hd : c.hasData <;> cases ht : c.hasTrailers <;>
-          (simp only [Bool.false_eq_true, if_false, if_true]
-           split <;> rfl)
-
+def retryGo (s : S) : Bool := if !(hasTimerObj s) then true else s.gtObj
 
 /-- [proxy10] the wake-up with a pending local reply (an asynchronous `TerminateStream` was accepted during the back-off):
 `doRetry` returns at once, `processError` hands the reply to the response pass -/
@@ -306,16 +273,17 @@ theorem inv_work_retry (c : Cfg) (ar aq : Nat) (s : S) (h : Inv c ar aq s) (hrun
   have hhdr : (snd s.trace).hdr = false := by rw [h.k2]; exact hrst
   have hglT : retryGt c s = true ∨ s.globalExpired = true := by
     unfold retryGt
-    cases hq : (s.gtObj && s.reqSent) with
+    cases hq : hasTimerObj s with
     | false => left; simp
     | true =>
       simp only [Bool.not_true, Bool.false_eq_true, if_false]
-      simp only [Bool.and_eq_true] at hq
+      simp only [hasTimerObj, Bool.and_eq_true] at hq
       exact hgl0 hq.2
   have hgtm : s.global = true → retryGt c s = true := by
     intro hg; unfold retryGt; split
     · rfl
     · exact hg
+  unfold doRetryBody
   by_cases hhg : s.hostsGone = true
   · -- no host can be chosen any more: local reply 502 (unless the global timer fired meanwhile)
     rw [if_pos hhg]
@@ -368,7 +336,7 @@ theorem inv_work_retry (c : Cfg) (ar aq : Nat) (s : S) (h : Inv c ar aq s) (hrun
           let s := upAppendHeaders c s (!c.hasData && !c.hasTrailers);
           let s := if c.hasData = true then upAppendData s (!c.hasTrailers) else s;
           let s := if c.hasTrailers = true then upAppendTrailers s else s;
-          let s := if (!(s.gtObj && s.reqSent)) = true then onUpstreamRequestSent c s else setupPerReqTimeout c s;
+          let s := if (!(hasTimerObj s)) = true then onUpstreamRequestSent c s else setupPerReqTimeout c s;
           ({ s with reqSent := true, recvDone := true } : S)) =
           retried s (some none) s.streams s.requests s.upActive s.trace s.failNext s.upReset s.resetReason s.notify
             (retryPt c s) (retryGt c s) (retryGg s) (retryGo s) := by
@@ -378,7 +346,7 @@ theorem inv_work_retry (c : Cfg) (ar aq : Nat) (s : S) (h : Inv c ar aq s) (hrun
         cases hd : c.hasData <;> cases ht : c.hasTrailers <;>
           simp [upAppendData, upAppendTrailers, d1, dataTrace_done, processDone, hpdn, retried, retryPt, retryGt, retryGg,
             retryGo, onUpstreamRequestSent, setupPerReqTimeout, how] <;>
-          cases hq : s.reqSent <;> cases hgo : s.gtObj <;> simp [hq, hgo]
+          cases hq : s.reqSent <;> cases hgo : s.gtObj <;> cases hgl1 : s.global <;> simp [hasTimerObj, hq, hgo, hgl1]
       rw [e]
       apply finish_retried c ar aq s h hrun hp (retryCtx h hrun hp hdt hex)
       · refine ⟨h.k10, h.k11, ?_⟩
@@ -435,7 +403,7 @@ theorem inv_work_retry (c : Cfg) (ar aq : Nat) (s : S) (h : Inv c ar aq s) (hrun
             let s := upAppendHeaders c s (!c.hasData && !c.hasTrailers);
             let s := if c.hasData = true then upAppendData s (!c.hasTrailers) else s;
             let s := if c.hasTrailers = true then upAppendTrailers s else s;
-            let s := if (!(s.gtObj && s.reqSent)) = true then onUpstreamRequestSent c s else setupPerReqTimeout c s;
+            let s := if (!(hasTimerObj s)) = true then onUpstreamRequestSent c s else setupPerReqTimeout c s;
             ({ s with reqSent := true, recvDone := true } : S)) =
             retried s (some none) (s.streams ++ [(⟨false, false, false, false⟩ : Stream)]) s.requests s.upActive
               (s.trace ++ [Ev.uf s.streams.length f]) (s.failNext.drop 1) true (failReason f) true
@@ -447,7 +415,7 @@ theorem inv_work_retry (c : Cfg) (ar aq : Nat) (s : S) (h : Inv c ar aq s) (hrun
           cases hd : c.hasData <;> cases ht : c.hasTrailers <;>
             simp [upOnResetStream, hnf.1, upAppendData, upAppendTrailers, d1, retried, retryPt, retryGt, retryGg,
               retryGo, onUpstreamRequestSent, setupPerReqTimeout, how] <;>
-            cases hq : s.reqSent <;> cases hgo : s.gtObj <;> simp [hq, hgo]
+            cases hq : s.reqSent <;> cases hgo : s.gtObj <;> cases hgl1 : s.global <;> simp [hasTimerObj, hq, hgo, hgl1]
         rw [e]
         apply finish_retried c ar aq s h hrun hp (retryCtx h hrun hp hdt hex)
         · apply ledger_append c aq s _ (some none) s.requests s.upActive ⟨h.k10, h.k11, h.k14⟩ hdead
@@ -472,7 +440,7 @@ theorem inv_work_retry (c : Cfg) (ar aq : Nat) (s : S) (h : Inv c ar aq s) (hrun
             let s := upAppendHeaders c s (!c.hasData && !c.hasTrailers);
             let s := if c.hasData = true then upAppendData s (!c.hasTrailers) else s;
             let s := if c.hasTrailers = true then upAppendTrailers s else s;
-            let s := if (!(s.gtObj && s.reqSent)) = true then onUpstreamRequestSent c s else setupPerReqTimeout c s;
+            let s := if (!(hasTimerObj s)) = true then onUpstreamRequestSent c s else setupPerReqTimeout c s;
             ({ s with reqSent := true, recvDone := true } : S)) =
             retried s (some (some s.streams.length)) (s.streams ++ [(⟨true, true, true, true⟩ : Stream)])
               (Gen.Resource.increase c.maxRequests s.requests) (s.upActive + 1)
@@ -489,7 +457,7 @@ theorem inv_work_retry (c : Cfg) (ar aq : Nat) (s : S) (h : Inv c ar aq s) (hrun
           cases hd : c.hasData <;> cases ht : c.hasTrailers <;>
             simp [upAppendData, upAppendTrailers, d2, hpd, hnf.1, hnf.2, retried, retryPt, retryGt, retryGg,
               retryGo, onUpstreamRequestSent, setupPerReqTimeout, how] <;>
-            cases hq : s.reqSent <;> cases hgo : s.gtObj <;> simp [hq, hgo]
+            cases hq : s.reqSent <;> cases hgo : s.gtObj <;> cases hgl1 : s.global <;> simp [hasTimerObj, hq, hgo, hgl1]
         rw [e]
         apply finish_retried c ar aq s h hrun hp (retryCtx h hrun hp hdt hex)
         · apply ledger_append c aq s _ _ _ _ ⟨h.k10, h.k11, h.k14⟩ hdead
